@@ -454,7 +454,7 @@ Print Assumptions row_shape_text_partial.
    PROVED: the rows of the accepted text are the rows of the trees of its plan with EVERY
    reference replaced by its definition (projection node, row mode, completed runs).  MISSING:
    the front end (checker, folder, scan chooser) commutes with expand_stmt -- compared on every
-   run by Corr/C05Text.v (code 3) --, the other nodes, batch mode, failing runs. *)
+   run by Corr/C05Text.v (code 7) --, the other nodes, batch mode, failing runs. *)
 Theorem alias_text_is_expansion_partial :
   forall (fo : fops) re (fmt_v : F fo -> string) (ag : aggops fo) pi pf q d pl out,
   plan_stmt_text fo re fmt_v q = STOk pl ->
